@@ -164,6 +164,12 @@ let () = iter_lines (fun line ->
         | "seti" -> run_op op (OSetVar (nat_of_int (int_of_string a.(0)), VI (z_of_hex a.(1))))
         | "setd" -> run_op op (OSetVar (nat_of_int (int_of_string a.(0)), VD (z_of_hex a.(1))))
         | "sets" -> run_op op (OSetVar (nat_of_int (int_of_string a.(0)), VS (ostr_of_tok a.(1))))
+        | "assign" ->
+          (* the application assigns its own variable: assign v i<int> | z<size> | d<bits> | s<text> *)
+          let t = a.(1) in
+          let body = String.sub t 1 (String.length t - 1) in
+          run_op op (OSetVar (nat_of_int (int_of_string a.(0)),
+                              (match t.[0] with 's' -> VS (ostr_of_tok body) | 'd' -> VD (z_of_hex body) | _ -> VI (z_of_hex body))))
         | "destroy" -> run_op op (ODestroy (nat_of_int (int_of_string a.(0))))
         | "summary" -> Printf.sprintf "summary r=0 |%s" (dump ())
         | "dnew" | "dset" | "dget" | "dunset" | "dall" ->
